@@ -175,6 +175,12 @@ def Peripheral.sent (p : Peripheral) (h : Header) (pdu : Bytes) : PTx :=
 def Peripheral.declined (p : Peripheral) (ev : Option PEvent) : PTx :=
   .decline { p with retry := 0 } ev
 
+/-- Which service the next request in `PreDataExchange` / `DataExchange` uses (`diag_in_flight` after
+the `if` of /repo c18fdc1): a new request (`retry_count == 0`) follows `diag_needed`, a
+retransmission repeats the service that went unanswered. -/
+def Peripheral.serviceIsDiag (p : Peripheral) : Bool :=
+  if p.retry = 0 then p.diagNeeded else p.diagInFlight
+
 /-- `Peripheral::transmit_telegram`. -/
 def Peripheral.transmit (fp : FdlParams) (op : OpState) (p : Peripheral) : PTx :=
   if op = .stop then .panic else
@@ -195,9 +201,9 @@ def Peripheral.transmit (fp : FdlParams) (op : OpState) (p : Peripheral) : PTx :
       | none => p.declined none
     | .validateConfig => p.sent (p.diagHeader fp) []
     | .preDataExchange | .dataExchange =>
-      -- `self.diag_in_flight = self.diag_needed;` (F10)
-      let p1 := { p with diagInFlight := p.diagNeeded }
-      if p.diagNeeded then p1.sent (p1.diagHeader fp) []
+      -- `if self.retry_count == 0 { self.diag_in_flight = self.diag_needed; }` (F10, c18fdc1)
+      let p1 := { p with diagInFlight := p.serviceIsDiag }
+      if p.serviceIsDiag then p1.sent (p1.diagHeader fp) []
       else p1.sent (p1.dxHeader fp) (dxPdu op p.piQ)
 
 /-- Result of `handle_diagnostics_response`: `None`, or `Some(&diag)` (its flags) with the updated
